@@ -479,6 +479,7 @@ func (r *rw) mapHooks(s ast.Stmt) (pre, post []ast.Stmt, ok bool) {
 		r.mapCnt++
 		id := fmt.Sprintf("_vm%d", r.mapCnt)
 		pre = []ast.Stmt{&ast.AssignStmt{Lhs: []ast.Expr{ast.NewIdent(id)}, Tok: token.DEFINE, Rhs: []ast.Expr{vrtCall("MapIterBegin", x.X)}}}
+		pre = append(r.mapReads(s), pre...)
 		end := func() ast.Stmt { return &ast.ExprStmt{X: vrtCall("MapIterEnd", ast.NewIdent(id))} }
 		x.Body.List = beforeReturns(x.Body.List, end)
 		x.Body.List = append([]ast.Stmt{&ast.ExprStmt{X: vrtCall("MapIterStep", ast.NewIdent(id))}}, x.Body.List...)
@@ -489,21 +490,100 @@ func (r *rw) mapHooks(s ast.Stmt) (pre, post []ast.Stmt, ok bool) {
 			if ix, isIx := l.(*ast.IndexExpr); isIx && simpleExpr(ix.X) {
 				r.needVrt = true
 				pre = append(pre, &ast.ExprStmt{X: vrtCall("MapWrite", ix.X)})
+				post = append(post, &ast.ExprStmt{X: vrtCall("MapWriteEnd", ix.X)})
 			}
 		}
-		return pre, nil, len(pre) > 0
+		pre = append(r.mapReads(s), pre...)
+		return pre, post, len(pre) > 0
 	case *ast.IncDecStmt:
 		if ix, isIx := x.X.(*ast.IndexExpr); isIx && simpleExpr(ix.X) {
 			r.needVrt = true
-			return []ast.Stmt{&ast.ExprStmt{X: vrtCall("MapWrite", ix.X)}}, nil, true
+			return []ast.Stmt{&ast.ExprStmt{X: vrtCall("MapWrite", ix.X)}}, []ast.Stmt{&ast.ExprStmt{X: vrtCall("MapWriteEnd", ix.X)}}, true
 		}
 	case *ast.ExprStmt:
 		if c, isCall := x.X.(*ast.CallExpr); isCall && len(c.Args) == 2 {
 			if f, isId := c.Fun.(*ast.Ident); isId && f.Name == "delete" && simpleExpr(c.Args[0]) {
 				r.needVrt = true
-				return []ast.Stmt{&ast.ExprStmt{X: vrtCall("MapWrite", c.Args[0])}}, nil, true
+				return []ast.Stmt{&ast.ExprStmt{X: vrtCall("MapWrite", c.Args[0])}}, []ast.Stmt{&ast.ExprStmt{X: vrtCall("MapWriteEnd", c.Args[0])}}, true
 			}
 		}
+		pre = r.mapReads(s)
+		return pre, nil, len(pre) > 0
+	case *ast.ReturnStmt, *ast.IfStmt, *ast.SwitchStmt, *ast.DeclStmt, *ast.SendStmt:
+		pre = r.mapReads(s)
+		return pre, nil, len(pre) > 0
 	}
 	return nil, nil, false
+}
+
+// mapReads returns vrt.MapRead(base) statements for every index expression base[k] read by the statement's own
+// expressions (not its nested blocks or function literals), one per distinct base.
+func (r *rw) mapReads(s ast.Stmt) []ast.Stmt {
+	var exprs []ast.Node
+	switch x := s.(type) {
+	case *ast.ExprStmt:
+		exprs = append(exprs, x.X)
+	case *ast.AssignStmt:
+		for _, e := range x.Rhs {
+			exprs = append(exprs, e)
+		}
+		for _, l := range x.Lhs {
+			if ix, ok := l.(*ast.IndexExpr); ok {
+				exprs = append(exprs, ix.Index) // the key expression is read
+				if x.Tok != token.ASSIGN && x.Tok != token.DEFINE {
+					exprs = append(exprs, ix)
+				}
+			} else {
+				exprs = append(exprs, l)
+			}
+		}
+	case *ast.ReturnStmt:
+		for _, e := range x.Results {
+			exprs = append(exprs, e)
+		}
+	case *ast.IfStmt:
+		if x.Init != nil {
+			if as, ok := x.Init.(*ast.AssignStmt); ok {
+				for _, e := range as.Rhs {
+					exprs = append(exprs, e)
+				}
+			}
+		}
+		exprs = append(exprs, x.Cond)
+	case *ast.SwitchStmt:
+		if x.Tag != nil {
+			exprs = append(exprs, x.Tag)
+		}
+	case *ast.DeclStmt:
+		exprs = append(exprs, x.Decl)
+	case *ast.SendStmt:
+		exprs = append(exprs, x.Value)
+	case *ast.RangeStmt:
+		exprs = append(exprs, x.X)
+	}
+	seen := map[string]bool{}
+	var out []ast.Stmt
+	for _, n := range exprs {
+		if n == nil {
+			continue
+		}
+		ast.Inspect(n, func(n ast.Node) bool {
+			switch y := n.(type) {
+			case *ast.FuncLit:
+				return false
+			case *ast.IndexExpr:
+				if simpleExpr(y.X) {
+					var b bytes.Buffer
+					_ = format.Node(&b, r.fset, y.X)
+					if !seen[b.String()] {
+						seen[b.String()] = true
+						r.needVrt = true
+						out = append(out, &ast.ExprStmt{X: vrtCall("MapRead", y.X)})
+					}
+				}
+			}
+			return true
+		})
+	}
+	return out
 }
